@@ -297,13 +297,16 @@ def _mk_mstdp_tensor(cls, file, elig):
                     return _Sel(self_t, k)
                 return saved[2](self_t, k)
 
+            base_reduce = env.state.fields["batchreduce"]
+
             def reduce_(it, x, dim=0, **kw):
                 if isinstance(x, _Bag):
                     tot = z3.RealVal(0)
                     for m in x.members:
                         tot = tot + z3.If(m.g.cond, tz.coerce(m.x.f, "float"), z3.RealVal(0))
-                    return T(tot, "float", None, None, None)
-                return x
+                    x = T(tot, "float", None, None, None)
+                # the stub's own reduction (identity on the arbitrary sample; the uninterpreted functional + log in C11 mode)
+                return it.call(base_reduce, [x, dim], kw)
 
             tn["argwhere"], tn["cat"] = argwhere, cat
             # `.view(-1, *repeat(1, dpost.ndim - 1))` only re-lays the per-sample scale out for broadcasting: in layout-free
